@@ -17,7 +17,7 @@ from __future__ import annotations
 
 import ast
 
-from ..core import (AnalysisError, Report, call_name, dotted, find_class, find_func, need,
+from ..core import (ancestors, AnalysisError, Report, call_name, dotted, find_class, find_func, need,
                     norm, short, parent)
 from ..flow import Flow, MustFacts
 from ..index import Index
@@ -217,20 +217,25 @@ def r04_3(rep: Report) -> None:
     # encode(): children encoded, size back-patched at self.position, then post_encode_all
     enc = need(find_func(cls, 'encode'), 'Mp4Atom.encode')
     order = []
+    from ..core import dfs_order
+    pos_of = dfs_order(enc)            # position in the (normal form) tree: helpers keep their own line numbers
     for n in ast.walk(enc):
         if isinstance(n, ast.Call):
             cn = call_name(n) or ''
             if cn == 'self.encode_fields':
-                order.append(('fields', n.lineno))
-            if cn == 'child.encode':
-                order.append(('children', n.lineno))
+                order.append(('fields', pos_of.get(id(n), n.lineno)))
+            if cn.endswith('.encode') and cn != 'self.encode' and any(
+                    isinstance(a_, ast.For) and 'self._children' in norm(a_.iter)
+                    and cn[:-7] in {x.id for x in ast.walk(a_.target) if isinstance(x, ast.Name)}
+                    and any(x is n for x in ast.walk(a_)) for a_ in ast.walk(enc)):
+                order.append(('children', pos_of.get(id(n), n.lineno)))
             if cn == 'out.seek' and n.args and norm(n.args[0]) == 'self.position':
-                order.append(('seek-start', n.lineno))
+                order.append(('seek-start', pos_of.get(id(n), n.lineno)))
             if cn == 'self.post_encode_all':
-                order.append(('post', n.lineno))
+                order.append(('post', pos_of.get(id(n), n.lineno)))
         if isinstance(n, ast.Assign) and norm(n.targets[0]) == 'self.size' \
                 and norm(n.value) == 'out.tell() - self.position':
-            order.append(('size', n.lineno))
+            order.append(('size', pos_of.get(id(n), n.lineno)))
     seq = [k for k, _ in sorted(order, key=lambda x: x[1])]
     want = ['fields', 'children', 'size', 'seek-start', 'post']
     if seq == want:
@@ -246,12 +251,28 @@ def r04_4(rep: Report) -> None:
     cls = need(find_class(tree, 'Mp4Atom'), 'Mp4Atom')
     parse = need(find_func(cls, 'parse'), 'Mp4Atom.parse')
     enc = need(find_func(cls, 'encode'), 'Mp4Atom.encode')
-    reads64 = any(isinstance(n, ast.Call) and call_name(n) == 'struct.unpack' and n.args
-                  and isinstance(n.args[0], ast.Constant) and 'Q' in str(n.args[0].value)
-                  for n in ast.walk(parse))
-    writes = [str(n.args[0].value) for n in ast.walk(enc)
-              if isinstance(n, ast.Call) and call_name(n) == 'struct.pack' and n.args
-              and isinstance(n.args[0], ast.Constant)]
+    def closure(fn0: ast.FunctionDef) -> list[ast.AST]:
+        """the method and the methods of the same class it calls (helpers that were not inlined), 3 levels"""
+        seen, todo = {fn0.name: fn0}, [(fn0, 0)]
+        while todo:
+            f_, d_ = todo.pop()
+            if d_ >= 3:
+                continue
+            for c_ in ast.walk(f_):
+                if isinstance(c_, ast.Call) and isinstance(c_.func, ast.Attribute) and isinstance(c_.func.value, ast.Name) \
+                        and c_.func.value.id in ('self', 'cls', 'clz', cls.name) and c_.func.attr not in seen:
+                    m_ = find_func(cls, c_.func.attr)
+                    if m_ is not None:
+                        seen[c_.func.attr] = m_
+                        todo.append((m_, d_ + 1))
+        return list(seen.values())
+    p_nodes = [n for f_ in closure(parse) for n in ast.walk(f_)]
+    e_nodes = [n for f_ in closure(enc) for n in ast.walk(f_)]
+
+    def fmt_of(n: ast.Call) -> str:
+        return str(n.args[0].value) if n.args and isinstance(n.args[0], ast.Constant) else ''
+    reads64 = any(isinstance(n, ast.Call) and call_name(n) == 'struct.unpack' and 'Q' in fmt_of(n) for n in p_nodes)
+    writes = [fmt_of(n) for n in e_nodes if isinstance(n, ast.Call) and call_name(n) == 'struct.pack' and fmt_of(n)]
     construct = f'{MP4}::Mp4Atom.encode'
     if reads64 and not any('Q' in w for w in writes):
         rep.fail(rid, construct, '64-bit size',
@@ -260,16 +281,39 @@ def r04_4(rep: Report) -> None:
                  'an 8-byte one (and a size above 4 GiB cannot be encoded)', enc)
     else:
         rep.ok(rid, construct, '64-bit size')
-    # uuid boxes: reader takes 16 extra bytes, writer emits 'uuid' + 16 bytes
-    if "b'uuid' + binascii.a2b_hex(self.atom_type[5:-1])" in norm(enc) and 'src.read(16)' in norm(parse):
+    # uuid boxes: the reader takes 16 more bytes when the type is 'uuid', the writer emits b'uuid' followed by
+    # the 16 bytes spelt by the hex digits of the type name
+    reads_ext = any(isinstance(n, ast.Call) and isinstance(n.func, ast.Attribute) and n.func.attr == 'read'
+                    and n.args and isinstance(n.args[0], ast.Constant) and n.args[0].value == 16
+                    and any(isinstance(a_, ast.If) and 'uuid' in norm(a_.test) for a_ in ancestors(n))
+                    for n in p_nodes)
+    writes_ext = any(isinstance(n, ast.BinOp) and isinstance(n.op, ast.Add) and isinstance(n.left, ast.Constant)
+                     and n.left.value == b'uuid' and isinstance(n.right, ast.Call)
+                     and (call_name(n.right) or '').split('.')[-1] in ('a2b_hex', 'unhexlify', 'fromhex')
+                     and 'atom_type' in norm(n.right) for n in e_nodes)
+    if reads_ext and writes_ext:
         rep.ok(rid, construct, 'uuid type')
     else:
-        rep.fail(rid, construct, 'uuid type', 'uuid box header is not symmetric', enc)
-    # fourcc: 4 bytes both sides
-    if "struct.unpack('>I4s', data)" in norm(parse) and "bytes(self.atom_type, 'ascii')" in norm(enc):
+        rep.fail(rid, construct, 'uuid type',
+                 f'uuid box header is not symmetric (reader takes 16 extra bytes under a uuid test: {reads_ext}; '
+                 f"writer emits b'uuid' + the 16 bytes of the type: {writes_ext})", enc)
+    # size + fourcc: 4 + 4 bytes on both sides
+    reads_hdr = any(isinstance(n, ast.Call) and (call_name(n) or '').endswith('unpack') and fmt_of(n).lstrip('<>!=') == 'I4s'
+                    for n in p_nodes) or any(
+        isinstance(n, ast.Call) and (call_name(n) or '').split('.')[-1] == 'Struct' and fmt_of(n).lstrip('<>!=') == 'I4s'
+        for n in ast.walk(tree))
+    writes_type = any(isinstance(n, ast.Call) and ((isinstance(n.func, ast.Name) and n.func.id == 'bytes' and len(n.args) == 2
+                                                    and norm(n.args[0]).endswith('atom_type'))
+                                                   or (isinstance(n.func, ast.Attribute) and n.func.attr == 'encode'
+                                                       and norm(n.func.value).endswith('atom_type') and n.args))
+                      and 'ascii' in norm(n) for n in e_nodes)
+    writes_size = any(w.lstrip('<>!=') == 'I' for w in writes)
+    if reads_hdr and writes_type and writes_size:
         rep.ok(rid, construct, 'size+fourcc')
     else:
-        rep.fail(rid, construct, 'size+fourcc', 'header size/fourcc handling changed', enc)
+        rep.fail(rid, construct, 'size+fourcc',
+                 f'header size/fourcc handling changed (reader unpacks I4s: {reads_hdr}; writer emits the 4 ascii '
+                 f'characters of the type: {writes_type}; writer packs a 32-bit size: {writes_size})', enc)
 
 
 def r04_6(rep: Report) -> None:
